@@ -375,7 +375,8 @@ def gen_item(rng, tier, ver="3.7"):
         g = {"append": [zoo_expr(rng) for _ in range(rng.randint(1, 3))]}
         if rng.chance(0.3):
             g["rename"] = {"names": rng.randint(0, 20) if rng.chance(0.6) else None, "co_name": rng.chance(0.3),
-                           "varnames": rng.randint(0, 20) if rng.chance(0.5) else None}
+                           "varnames": rng.randint(0, 20) if rng.chance(0.5) else None,
+                           "co_freevars": rng.randint(0, 5) if rng.chance(0.4) else None, "co_cellvars": rng.randint(0, 5) if rng.chance(0.4) else None}
         if rng.chance(0.3):
             g["line_tail"] = rng.choice(["noline", "noline", 3, 100])
         item["graft"] = g
